@@ -516,6 +516,12 @@ def explain_codec(cls, t, profiles, fn, args):
     chk = parts[0]
     sig = dict(check=chk)
     try:
+        if chk == 'guard':
+            try:
+                ok = check_count_guard(cls, int(parts[-1]), list(args[:-1]), args[-1])
+            except Exception as ex:
+                return dict(sig, kind='count-guard-raises', exc=type(ex).__name__, site=_innermost_repo_frame(ex.__traceback__))
+            return dict(sig, kind='count-not-bounded' if not ok else 'passes?')
         if chk == 'cnt':
             try:
                 ok = check_count_accept(cls, int(parts[1]), args[0], args[1])
